@@ -35,6 +35,8 @@ fn main() {
         let id = v.get("property").and_then(|x| x.as_str()).unwrap_or("");
         let code = match id {
             "C04" => framework::replay(&props::c04::C04, path, &st.verif_dir),
+            "C14" => framework::replay(&props::c14::C14, path, &st.verif_dir),
+            "C12" => framework::replay(&props::c12::C12, path, &st.verif_dir),
             _ => {
                 eprintln!("HARNESS-ERROR: unknown property {:?} in {}", id, path.display());
                 2
@@ -56,6 +58,8 @@ fn main() {
     };
     let code = match args[0].as_str() {
         "C04" => framework::run_check(&props::c04::C04, &st),
+        "C14" => framework::run_check(&props::c14::C14, &st),
+        "C12" => framework::run_check(&props::c12::C12, &st),
         _ => usage(),
     };
     std::process::exit(code);
